@@ -327,6 +327,18 @@ def run(ck, F, tier):
             okt = okt and len(rng) == 1 and lit_value(rng[0]["args"][0]) == 0 and lit_value(rng[0]["args"][1]) == 127 and \
                 any(n.get("k") == "mcall" and n["m"] == "map_while" for n in walk(nb.value))
         ck.inst("K4", ty + ":table", okt, nb.span, "table = (0..=127).map_while(t -> x = round(C*ln_1p(exp(-t/C))) as i8; x > 0 ? Some(x) : None)")
+    for ty in eight:
+        dimpl = [i for i in F.impls if i.get("trait") == "std::default::Default" and i.get("self_ty") == ARI + ty]
+        ok = False
+        why = "no Default impl" if not dimpl else ""
+        if dimpl:
+            derived = "derive" in (dimpl[0].get("expn") or "")
+            db = F.bodies.get("<%s%s as std::default::Default>::default" % (ARI, ty))
+            delegates = db is not None and db.hir is not None and (callee(strip(db.value.get("e") or {})) or "") == ARI + ty + "::new"
+            ok = (not derived) and delegates
+            why = "Default::default() %s" % ("delegates to new(), so every constructor builds the lookup table" if ok else
+                                           "is %s: a value built this way has an empty lookup table and degrades to plain min-sum" % ("derived" if derived else "not a call of new()"))
+        ck.inst("K4", ty + ":default-builds-table", ok, F.body(ARI + ty + "::new").span, why)
     consts = {"Tanhf64": [18.0, -18.0], "Tanhf32": [9.0, -9.0]}
     for ty, want in consts.items():
         for meth in ("send_check_messages", "update_check_messages_and_vars"):
